@@ -459,7 +459,7 @@ func (b *builder) buildStruct(n *Node) z.ZogSchema {
 		sch[f.Key] = b.build(f.Node)
 	}
 	if n.ViaMerge {
-		return b.buildStructViaMerge(n, order, sch)
+		return deriveStruct(n, b.buildStructViaMerge(n, order, sch).(*z.StructSchema))
 	}
 	s := z.Struct(sch)
 	for i := range n.Tests {
@@ -476,6 +476,29 @@ func (b *builder) buildStruct(n *Node) z.ZogSchema {
 	}
 	for i := range n.Posts {
 		s = s.PostTransform(b.post(n, &n.Posts[i]))
+	}
+	return deriveStruct(n, s)
+}
+
+// deriveStruct applies n.Derive: a derivation that keeps every field (and, as documented, the struct-level tests and transforms).
+func deriveStruct(n *Node, s *z.StructSchema) z.ZogSchema {
+	switch n.Derive {
+	case 1:
+		keys := make([]any, len(n.Fields))
+		for i := range n.Fields {
+			keys[i] = n.Fields[i].Key
+		}
+		return s.Pick(keys...)
+	case 2:
+		return s.Omit()
+	case 3:
+		return s.Extend(z.Schema{})
+	case 4:
+		m := map[string]bool{}
+		for i := range n.Fields {
+			m[n.Fields[i].Key] = true
+		}
+		return s.Pick(m)
 	}
 	return s
 }
